@@ -105,9 +105,7 @@ fn scenario(c: &Case) -> Scenario {
         vec![c.bytes.clone()],
         AppProgram {
             plans: vec![c.plan.clone(), ReqPlan::simple()],
-            recv: RecvStyle::Recv,
-            deferred: false,
-        },
+            recv: RecvStyle::Recv, deferred: false, thread_per_request: false },
     )
 }
 
